@@ -103,6 +103,7 @@ type Case struct {
 	Drivers  [][]Op    `json:"drivers,omitempty"` // multi-driver programs
 	Faults   []Fault   `json:"faults,omitempty"`
 	Flags    map[string]bool `json:"flags,omitempty"` // oracle switches
+	ROProg   []Op      `json:"roProg,omitempty"`  // C18: program run against the read-only collection
 	Decisions []uint32 `json:"decisions,omitempty"` // optional decision log to follow
 	VerifyAtomic bool  `json:"verifyAtomic,omitempty"`
 }
@@ -135,6 +136,7 @@ func (v *Violation) String() string {
 // Outcome of one executed case.
 type Outcome struct {
 	Case      *Case      `json:"-"`
+	ReplayCase *Case     `json:"-"` // when set, the case to store in the replay file instead of Case
 	Violation *Violation `json:"violation,omitempty"`
 	Steps     int64      `json:"steps"`
 	Switches  int64      `json:"switches"`
